@@ -790,6 +790,54 @@ def _straightline_updates(stmts: list[ast.stmt], in_loop: bool) -> list[ast.stmt
     return out
 
 
+class _Subst(ast.NodeTransformer):
+    def __init__(self, values: dict[str, ast.AST]):
+        self.values = values
+
+    def visit_Name(self, node):  # noqa: N802
+        if node.id in self.values and isinstance(node.ctx, ast.Load):
+            return ast.copy_location(clone(self.values[node.id]), node)
+        return node
+
+
+def _fold_constants(fn: ast.FunctionDef) -> ast.FunctionDef:
+    """Boolean constants introduced by fixing defaulted parameters: `x and True` is x, `if False:` selects the else branch."""
+    class F(ast.NodeTransformer):
+        def visit_BoolOp(self, node):  # noqa: N802
+            self.generic_visit(node)
+            is_and = isinstance(node.op, ast.And)
+            vals = []
+            for v in node.values:
+                if isinstance(v, ast.Constant) and isinstance(v.value, bool):
+                    if v.value == is_and:
+                        continue          # neutral element
+                    return ast.copy_location(ast.Constant(value=not is_and), node)   # absorbing element
+                vals.append(v)
+            if not vals:
+                return ast.copy_location(ast.Constant(value=is_and), node)
+            return vals[0] if len(vals) == 1 else ast.copy_location(ast.BoolOp(op=node.op, values=vals), node)
+
+        def visit_UnaryOp(self, node):  # noqa: N802
+            self.generic_visit(node)
+            if isinstance(node.op, ast.Not) and isinstance(node.operand, ast.Constant) and isinstance(node.operand.value, bool):
+                return ast.copy_location(ast.Constant(value=not node.operand.value), node)
+            return node
+
+        def visit_If(self, node):  # noqa: N802
+            self.generic_visit(node)
+            if isinstance(node.test, ast.Constant) and isinstance(node.test.value, bool):
+                return node.body if node.test.value else (node.orelse or [ast.Pass()])
+            return node
+
+        def visit_IfExp(self, node):  # noqa: N802
+            self.generic_visit(node)
+            if isinstance(node.test, ast.Constant) and isinstance(node.test.value, bool):
+                return node.body if node.test.value else node.orelse
+            return node
+
+    return F().visit(fn)
+
+
 class Signature:
     def __init__(self, fn_node: ast.FunctionDef, roles: list[str] | None, lenient: bool = False):
         self.lenient = lenient
@@ -799,6 +847,20 @@ class Signature:
         ast.fix_missing_locations(fn)
         params = [a.arg for a in fn.args.args]
         self.nparams = len(params)
+        if roles is not None and len(params) > len(roles):
+            # additional trailing parameters with constant defaults: the definition describes the default behaviour
+            extra = params[len(roles):]
+            a_ = fn_node.args
+            names_ = [x.arg for x in (*a_.posonlyargs, *a_.args)]
+            dflt = dict(zip(reversed(names_), reversed(a_.defaults)))
+            dflt.update({k.arg: d for k, d in zip(a_.kwonlyargs, a_.kw_defaults) if d is not None})
+            if all(isinstance(dflt.get(x), ast.Constant) for x in extra) and not any(
+                    isinstance(n, ast.Name) and n.id in extra and isinstance(n.ctx, ast.Store) for n in ast.walk(fn)):
+                fn = _fold_constants(_Subst({x: dflt[x] for x in extra}).visit(fn))
+                fn.args.args = fn.args.args[:len(roles)]
+                ast.fix_missing_locations(fn)
+                params = params[:len(roles)]
+                self.defaulted = extra
         if roles is not None:
             if len(roles) != len(params):
                 raise AnalysisError(f"kernel {fn.name} has {len(params)} parameters, reference has {len(roles)}")
@@ -872,6 +934,20 @@ class Signature:
             return True
 
         multi = [v for v in order if v not in self.messages and not transparent(v)]
+        # numbered by what they are initialised with (other such locals masked), then by first binding: the numbering does
+        # not depend on the order of independent initialisations
+        import re as _re
+
+        def init_text(v: str) -> str:
+            first = next((dd for dd in flow.defs if dd.var == v and dd.kind in ("assign", "unpack", "aug") and dd.value is not None), None)
+            if first is None:
+                return "~"
+            masked = _Rename({o: "__other__" for o in multi}).visit(clone(first.value))
+            return norm(masked) + (str(first.index) if first.index else "")
+
+        keyed = sorted(multi, key=lambda v: (init_text(v), order.index(v)))
+        # only reorder when the initialisers are all distinct (ties keep program order among themselves anyway)
+        multi = keyed
         fn = _Rename({v: f"$v{i}" for i, v in enumerate(multi)}).visit(fn)
         # returned / locally allocated arrays by order
         fi = _fi(fn)
@@ -879,7 +955,9 @@ class Signature:
         local_arrays = []
         for d in flow.defs:
             if d.kind == "assign" and isinstance(d.value, ast.Call) and (dotted(d.value.func) or "").startswith("np.") \
-                    and d.var not in local_arrays and not d.var.startswith("$v"):
+                    and d.var not in local_arrays and not d.var.startswith("$v") and \
+                    any(dd.var == d.var and dd.kind in ("mutate", "aug") for dd in flow.defs):
+                # an array that is filled / updated in place has an identity; one that is only computed and read is a value
                 local_arrays.append(d.var)
         # locally constructed objects (class instances) keep their identity: they are named, never duplicated
         objects = []
@@ -1038,7 +1116,7 @@ _DOMAIN_GUARD = __import__("re").compile(
     r"|cmp\[Is\]\([\w.]+, None\)"                                                                 # p is None
     r")$")
 _DOMAIN_GUARD_NEG = __import__("re").compile(
-    r"^ifnot (isinstance\([\w.]+, .*\)|callable\([\w.]+\)|cmp\[In\]\([\w.]+, \{.*\}\)|cmp\[Eq\]\((\d+, )?[\w.]+\.(ndim|dtype)(, [\w.']+)?\)|np\.isfinite\([\w.]+\))$")
+    r"^ifnot (cmp\[Eq\]\((len\([\w.]+\)|[\w.]+\.size|[\w.]+\.shape\[\d\]), [\w.]+\)|cmp\[Eq\]\([\w.]+, (len\([\w.]+\)|[\w.]+\.size|[\w.]+\.shape\[\d\])\)|isinstance\([\w.]+, .*\)|callable\([\w.]+\)|cmp\[In\]\([\w.]+, \{.*\}\)|cmp\[Eq\]\((\d+, )?[\w.]+\.(ndim|dtype)(, [\w.']+)?\)|np\.isfinite\([\w.]+\))$")
 
 
 def _tolerate_domain_guards(act: "Signature", ref: "Signature") -> list[str]:
